@@ -3,7 +3,7 @@ import serverlib as sl
 import srvprops
 
 PROP = "C04"
-THEOREMS = ["C04_owner_and_member_gates", "C04_single_owner_reachable"]
+THEOREMS = ["C04_owner_and_member_gates", "C04_single_owner_reachable", "C04_conc_owner_is_member_always", "C04_source_owner_is_member", "C04_source_segment_layout"]
 
 
 def run(tier, replay=None):
